@@ -403,6 +403,28 @@ pub fn gen(seed: u64, n: u64, out: &mut String) {
                 let frames: Vec<Frame> = (0..k).map(|j| rand_frame(&mut r, allow_big && j == 0)).collect();
                 stream_case(&frames, None, &mut r, out);
             }
+            5 if r.chance(1, 2) => {
+                // well-framed but type-confused: a valid length prefix, any type byte, and as
+                // payload either random bytes or the payload of a valid frame of another type
+                let body: Vec<u8> = if r.chance(1, 2) {
+                    let k = r.below(24) as usize;
+                    r.bytes(k)
+                } else {
+                    let f = rand_frame(&mut r, false);
+                    let mut dst = BytesMut::new();
+                    if MessageCodec.encode(f, &mut dst).is_ok() && dst.len() >= 9 { dst[9..].to_vec() } else { vec![] }
+                };
+                let mut v = (body.len() as u64).to_be_bytes().to_vec();
+                v.push(r.below(11) as u8);
+                v.extend_from_slice(&body);
+                if r.chance(1, 3) {
+                    let mut dst = BytesMut::new();
+                    let _ = MessageCodec.encode(Frame::Ok, &mut dst);
+                    v.extend_from_slice(&dst);
+                }
+                let chunks = cut(&mut r, &v);
+                raw_case(&chunks, out);
+            }
             5 => {
                 // oversize length prefix, arbitrary type and tail
                 let len: u64 = *r.pick(&[MAX as u64 + 1, MAX as u64 + 2, 1 << 21, 1 << 32, 1 << 40, u64::MAX, 1 << 63]);
